@@ -393,6 +393,23 @@ func TestC19Invalid(t *testing.T) {
 			c.failf("PatchByJSON(%q) on replica %d returned an error but changed the document (%s -> %s) or queued operations (%d -> %d)", bad, r, before, after, bops, aops)
 		}
 		labels := []string{"bad=" + bad, fmt.Sprintf("refused-on-replica=%d", r)}
+		if perr != nil && rapid.Bool().Draw(c.rt, "second_round") {
+			// an accepted patch and a second abandoned transaction first: the second rollback starts from the point
+			// the first one left behind
+			mid, _ := json.Marshal(c19Object(c.rt, "mid", 2))
+			if _, e := doc.PatchByJSON(string(mid)); e == nil {
+				b2 := sim.Canon(doc.GetValue())
+				ab, _ := json.Marshal(c19Object(c.rt, "abandoned2", 2))
+				_ = doc.Transaction("abandoned2", func(d orda.DocumentInTx) error {
+					_, _ = d.PatchByJSON(string(ab))
+					return fmt.Errorf("abandoned by the user")
+				})
+				if a2 := sim.Canon(doc.GetValue()); a2 != b2 {
+					c.failf("the second abandoned transaction on replica %d changed the document: %s -> %s", r, b2, a2)
+				}
+				labels = append(labels, "two-rollbacks-with-an-accepted-patch-between")
+			}
+		}
 		if perr != nil {
 			// life goes on: an accepted patch on the same replica reaches its target everywhere
 			next := c19Object(c.rt, "next", 2)
